@@ -179,6 +179,9 @@ int sigma_build(pev *out, int cap, int variant) {
                 ADD(ev_discover((uint8_t)tos, sts[m], br ? ST_BR : sts[m], gens[g], seqs[s]));
         /* a Discover whose station list names us (acknowledging form) */
         pev d = ev_discover(0, ST_M1, ST_M1, 0x0102, 2); d.nsta = 3; d.own_pos = 1; ADD(d);
+        /* a Discover that was relayed back onto the segment by a hairpinning bridge port / seen through a packet socket
+         * next to a co-hosted mapper: its Ethernet source is the receiving interface's own address */
+        ADD(ev_discover(0, ST_M1, ST_OWN, 0x1234, 1)); ADD(ev_discover(1, ST_M1, ST_OWN, 0x1234, 1));
     }
     ADD(ev_reset(0, ST_M1)); ADD(ev_reset(1, ST_M1));
     ADD(ev_hello(0, ST_PEER, 0x3412));
